@@ -311,6 +311,13 @@ func c05r4(c *Ctx) {
 										okOne = true
 									}
 								}
+								// the staged list may hold positions of the loop over the set: S = append(S, i) after
+								// Validate(ms, txn) succeeded for `for i, txn := range X`
+								if rh, _, _ := enclosingRange(f, n); rh != nil && el != nil {
+									if rs2, ok := rh.AST.(*ast.RangeStmt); ok && rs2.Key != nil && rs2.Value != nil && f.ObjOf(rs2.Key) == el && f.ObjOf(rs2.Value) == v.txn && f.OnlyVia(n, v.chk.Succ) {
+										okOne = true
+									}
+								}
 								// the staged list may hold positions: S = append(S, i) after Validate(ms, X[i]) succeeded
 								if ix, isIdx := ast.Unparen(v.call.Expr.Args[1]).(*ast.IndexExpr); isIdx && el != nil && f.ObjOf(ix.Index) == el && f.OnlyVia(n, v.chk.Succ) {
 									okOne = true
